@@ -95,13 +95,6 @@ def layoutOfJ (j : Json) : Except String Layout := do
     | .error _ => pure none
   pure ⟨gaps, tr⟩
 
-/-- `isLineSep`-characters other than `\n` and the `\r` of a `\r\n`: text without them is split
-into the same lines by `splitlines` and by stream iteration -/
-def noExoticSep : Str → Bool
-  | [] => true
-  | '\r' :: '\n' :: r => noExoticSep r
-  | c :: r => (c = '\n' || !isLineSep c) && noExoticSep r
-
 def outcomes (text : Str) : List (String × Json) :=
   [("string", resJ (parseString text)), ("stream", resJ (parseStream text)),
    ("file", resJ (parseFile text))]
@@ -112,8 +105,8 @@ def bstparse (j : Json) : Except String Json := do
   pure (obj [("out", obj (outcomes src)),
              ("spec", obj [("lines", strs (splitLines src)),
                            ("stripped", strs ((splitLines src).map stripComment)),
-                           ("plain", Json.bool (noExoticSep src)),
-                           ("notrail", Json.bool ((splitLines src).all fun l => rstrip l == l))])])
+                           ("plain", Json.bool (plainBreaks src)),
+                           ("notrail", Json.bool (noTrailingWs src))])])
 
 /-- op `bststrip`: one line ↦ `strip_comment(line)` -/
 def bststrip (j : Json) : Except String Json := do
@@ -128,7 +121,7 @@ def bstrt (j : Json) : Except String Json := do
   let text := print p L
   pure (obj [("out", obj (("text", strToJson text) :: outcomes text)),
              ("spec", obj [("prog", progJ p), ("wf", Json.bool (decide (WFProg p))),
-                           ("plain", Json.bool (noExoticSep text))])])
+                           ("plain", Json.bool (plainBreaks text))])])
 
 def readingJ (ls : List Lex) (gaps : List Gap) (text : Str) : Reading → Json
   | .prog p => obj [("ok", progJ p)]
@@ -148,7 +141,7 @@ def bstlex (j : Json) : Except String Json := do
   pure (obj [("out", obj (("text", strToJson text) :: outcomes text)),
              ("spec", obj [("reading", readingJ ls L.gaps text (read ls)),
                            ("wf", Json.bool (ls.all wfLex)),
-                           ("plain", Json.bool (noExoticSep text))])])
+                           ("plain", Json.bool (plainBreaks text))])])
 
 /-- driver ops of this property: (op name, handler) -/
 def handlers : List (String × (Json → Except String Json)) :=
